@@ -10,7 +10,7 @@ if ! git -C "$wt" apply "$seed/patch.diff"; then echo "PATCH DOES NOT APPLY"; gi
 (cd "$wt" && GOFLAGS=-mod=mod GOPROXY=off go build ./... ) || { echo "DOES NOT BUILD"; git -C /repo worktree remove --force "$wt"; exit 3; }
 for c in "$@"; do
   set +e
-  VERIF_REPO="$wt" /verif/check "$c" > "$wt.out" 2>&1; rc=$?
+  VERIF_MAX_REJECTED="${VERIF_MAX_REJECTED:-40}" VERIF_REPO="$wt" /verif/check "$c" > "$wt.out" 2>&1; rc=$?
   set -e
   grep "VIOLATION\|KNOWN-FINDING\|MACHINERY" "$wt.out" | cut -c1-160 | head -4
   echo "seedtest $(basename $seed) check $c rc=$rc"
